@@ -55,6 +55,29 @@ const P_CRON: u8 = 12;
 const MIN_DUR: i64 = 180 * 2880;
 const MAX_DUR: i64 = 1278 * 2880;
 
+/// i128 amounts are written as decimal strings (serde_json values cannot hold numbers beyond 64 bits);
+/// numbers are accepted when reading
+mod i128_str {
+    use serde::{de, Deserializer, Serializer};
+    pub fn serialize<S: Serializer>(x: &i128, s: S) -> Result<S::Ok, S::Error> {
+        s.serialize_str(&x.to_string())
+    }
+    struct V;
+    impl<'de> de::Visitor<'de> for V {
+        type Value = i128;
+        fn expecting(&self, f: &mut std::fmt::Formatter) -> std::fmt::Result {
+            f.write_str("an integer or a decimal string")
+        }
+        fn visit_i64<E: de::Error>(self, v: i64) -> Result<i128, E> { Ok(v as i128) }
+        fn visit_u64<E: de::Error>(self, v: u64) -> Result<i128, E> { Ok(v as i128) }
+        fn visit_f64<E: de::Error>(self, v: f64) -> Result<i128, E> { Ok(v as i128) }
+        fn visit_str<E: de::Error>(self, v: &str) -> Result<i128, E> { v.parse().map_err(E::custom) }
+    }
+    pub fn deserialize<'de, D: Deserializer<'de>>(d: D) -> Result<i128, D::Error> {
+        d.deserialize_any(V)
+    }
+}
+
 #[derive(Clone, Debug, Serialize, Deserialize, PartialEq)]
 struct PDeal {
     client: u8,
@@ -67,8 +90,11 @@ struct PDeal {
     label: u16,
     start: i64,
     end: i64,
+    #[serde(with = "i128_str")]
     price: i128,
+    #[serde(with = "i128_str")]
     pcoll: i128,
+    #[serde(with = "i128_str")]
     ccoll: i128,
     /// 0 signed by the client, 1 signed by somebody else, 2 garbage
     sig: u8,
@@ -77,8 +103,8 @@ struct PDeal {
 
 #[derive(Clone, Debug, Serialize, Deserialize)]
 enum MOp {
-    AddBalance { from: u8, epoch: i64, who: u8, value: i128 },
-    Withdraw { caller: u8, epoch: i64, who: u8, amount: i128 },
+    AddBalance { from: u8, epoch: i64, who: u8, #[serde(with = "i128_str")] value: i128 },
+    Withdraw { caller: u8, epoch: i64, who: u8, #[serde(with = "i128_str")] amount: i128 },
     Publish { caller: u8, epoch: i64, deals: Vec<PDeal> },
     Activate { caller: u8, epoch: i64, sectors: Vec<(u64, i64, Vec<u64>)> },
     ContentChanged { caller: u8, epoch: i64, sectors: Vec<(u64, i64, Vec<(Option<u64>, u8, u64)>)> },
@@ -1571,7 +1597,7 @@ fn schedules(interval: i64) -> Vec<MCase> {
                         kk /= 3;
                     }
                     ops.push(MOp::Settle { caller: P_STRANGER, epoch: e + interval + 1, ids: vec![0] });
-                    ops.push(MOp::Withdraw { caller: 0, epoch: e + interval + 2, who: 0, amount: 1 << 100 });
+                    ops.push(MOp::Withdraw { caller: 0, epoch: e + interval + 2, who: 0, amount: 1 << 62 });
                     out.push(MCase { interval, ops });
                 }
             }
